@@ -14,6 +14,7 @@ EXTENDS Spinner, Json, TLC
 
 CONSTANTS Bodies,      \* set of with-bodies
           Modes,       \* kinds of output: "ansi", "plain", "quiet"
+          ValueChoices,\* indicator value lists
           Seconds,     \* what follows the run on the same indicator object: <<>> (nothing) or <<[start, end, body]>>
           TickMs,      \* set of clock advances
           MaxTicks, MaxPre
@@ -30,7 +31,8 @@ Work == [k |-> "work", m |-> <<>>]
 Raise == [k |-> "raise", m |-> <<>>]
 Interrupt == [k |-> "interrupt", m |-> <<>>]
 \* body families
-BodiesQ == {<<>>, <<Set(B)>>, <<Raise>>, <<Set(B), Raise>>, <<Set(B), Set(C)>>, <<Work, Set(B)>>, <<Interrupt>>, <<Set(B), Interrupt>>}
+Empty == <<>>
+BodiesQ == {<<>>, <<Set(B)>>, <<Set(Empty), Set(B)>>, <<Raise>>, <<Set(B), Raise>>, <<Set(B), Set(C)>>, <<Work, Set(B)>>, <<Interrupt>>, <<Set(B), Interrupt>>}
 BodiesT == BodiesQ \cup {<<Set(B), Set(C), Raise>>, <<Set(B), Work, Set(C)>>, <<Work, Raise>>, <<Set(B), Set(A), Set(B)>>}
 BodiesOne == {<<Set(B)>>}
 BodiesH == {<<Set(B)>>, <<Set(B), Raise>>, <<>>, <<Raise>>, <<Interrupt>>}
@@ -52,12 +54,14 @@ NoSecond == {<<>>}
 SecondsQ == {<<>>, <<[start |-> E, end |-> E, body |-> <<>>]>>, <<[start |-> A, end |-> E, body |-> <<Set(B)>>]>>,
              <<[start |-> E, end |-> A, body |-> <<Raise>>]>>}
 SecondsH == {<<[start |-> E, end |-> E, body |-> <<>>]>>, <<[start |-> A, end |-> E, body |-> <<>>]>>}
-Cfg2(md, x) == [mode |-> md, w |-> 30, interval |-> 100, start |-> x.start, end |-> x.end, body |-> x.body,
+DefaultValues == {Values}
+TwoValueLists == {Values, <<"1", "2">>}
+Cfg2(md, x, vs) == [mode |-> md, values |-> vs, w |-> 30, interval |-> 100, start |-> x.start, end |-> x.end, body |-> x.body,
                 next |-> <<>>, prev |-> <<A, B, C, E>>]
-Cfg(b, md, nx) == [mode |-> md, w |-> 30, interval |-> 100, start |-> A, end |-> E, body |-> b,
-                   next |-> IF nx = <<>> THEN <<>> ELSE <<Cfg2(md, nx[1])>>, prev |-> <<>>]
+Cfg(b, md, nx, vs) == [mode |-> md, values |-> vs, w |-> 30, interval |-> 100, start |-> A, end |-> E, body |-> b,
+                   next |-> IF nx = <<>> THEN <<>> ELSE <<Cfg2(md, nx[1], vs)>>, prev |-> <<>>]
 
-MInit == /\ \E b \in Bodies, md \in Modes, nx \in Seconds : InitWith(Cfg(b, md, nx)) /\ cfg0 = Cfg(b, md, nx)
+MInit == /\ \E b \in Bodies, md \in Modes, nx \in Seconds, vs \in ValueChoices : InitWith(Cfg(b, md, nx, vs)) /\ cfg0 = Cfg(b, md, nx, vs)
          /\ nticks = 0 /\ hist = <<>> /\ npre = 0 /\ prev = ""
 
 EnT == pcS = "sleep" /\ clock < sdead /\ (nticks < MaxTicks \/ stop)
